@@ -132,8 +132,9 @@ def gen_fmt_attr(rng, field_names, allow_variant=False, bare_bias=False):
                 args.append(gen_arg(rng, field_names, positional=True))
         elif k == 3:
             al = rng.choice(["a", "val", "x"])
-            if unraw and rng.chance(1, 2):
-                al = rng.choice(unraw)        # an explicit `name = expr` shadowing the field of that name
+            plain = [f for f in field_names if not f.startswith("r#")]
+            if plain and rng.chance(1, 2):
+                al = rng.choice(plain)        # an explicit `name = expr` shadowing the field of that name (a keyword is no alias)
             pieces.append("{" + al + spec + "}")
             a = gen_arg(rng, field_names, positional=True)
             args.append((al, a[1], a[2]))
